@@ -7,7 +7,7 @@
 (* deviation does not mention is still judged by the contract.                     *)
 EXTENDS BlobStore, TLC
 
-KnownIds == {"C03-KF1", "C03-KF2", "C03-KF3", "C03-KF4", "C03-KF5", "C03-KF6", "C03-KF7", "C03-KF8"}
+KnownIds == {"C03-KF1", "C03-KF2", "C03-KF3", "C03-KF4", "C03-KF5", "C03-KF7", "C03-KF8"}
 
 (* the probe event with replaceable judgements for get / size / len answers *)
 ProbeWith(ids, g, c, s, n, G(_, _, _), S(_, _, _), L(_)) ==
@@ -21,32 +21,28 @@ MaxOf(S) == CHOOSE x \in S : \A y \in S : y <= x
 
 (* ---------------------------------------------------------------------------------------- *)
 (* C03-KF1: HuffmanBlobStore::put stores the Huffman-ENCODED bytes once a tree has been      *)
-(* built, but get() and size() delegate to the inner store without decoding: a record that   *)
-(* went through the encoder never comes back (other bytes; behind an outer ZstdBlobStore the *)
-(* outer decompression of those bytes fails, so get of a live id is an error).  Empty        *)
-(* records bypass the encoder.  contains and len stay correct and are still judged.          *)
-HuffOuter(subj) == subj.fam = "stack" /\ subj.variant = "zstd_huff_mem"
+(* built, but get() and size() delegate to the inner store without decoding: a non-empty     *)
+(* record that went through the encoder comes back as other bytes (get still succeeds) and   *)
+(* size() reports the encoded size.  Empty records bypass the encoder.  contains and len     *)
+(* stay correct and are still judged; so is every record the deviation does not concern.     *)
 HuffSubj(subj) == \/ subj.fam = "huff" /\ subj.variant /= "untrained"
                   \/ subj.fam = "stack" /\ subj.variant = "huff_zstd_mem"
-                  \/ HuffOuter(subj)
-Encoded(subj, id) == IsLive(id) /\ (live[id].len > 0 \/ HuffOuter(subj))
-Get1(subj, id, ok, d) == IF Encoded(subj, id) THEN (ok \/ HuffOuter(subj)) ELSE GetOk(id, ok, d)
-Size1(subj, id, ok, r) == IF Encoded(subj, id) THEN (ok => Len(r) = 1) ELSE SizeOk(id, ok, r)
-Wrong1(subj, id, gok, gd) == Encoded(subj, id) /\ ~GetOk(id, gok, gd)
+Encoded(id) == IsLive(id) /\ live[id].len > 0
+Get1(id, ok, d) == IF Encoded(id) THEN ok ELSE GetOk(id, ok, d)
+Size1(id, ok, r) == IF Encoded(id) THEN (ok => Len(r) = 1) ELSE SizeOk(id, ok, r)
+Wrong1(id, gok, gd) == Encoded(id) /\ gok /\ ~GetOk(id, gok, gd)
 G1(e, subj) ==
     /\ HuffSubj(subj)
-    /\ \/ e.op = "get"   /\ Wrong1(subj, e.id, e.ok, e.d)
-       \/ e.op = "size"  /\ Encoded(subj, e.id) /\ ~SizeOk(e.id, e.ok, e.r)
+    /\ \/ e.op = "get"   /\ Wrong1(e.id, e.ok, e.d)
+       \/ e.op = "size"  /\ Encoded(e.id) /\ ~SizeOk(e.id, e.ok, e.r)
        \/ e.op = "probe" /\ \E i \in 1..Len(e.ids) :
-                               \/ Wrong1(subj, e.ids[i], e.get[i].ok, e.get[i].d)
-                               \/ Encoded(subj, e.ids[i]) /\ ~SizeOk(e.ids[i], e.size[i].ok, e.size[i].r)
+                               \/ Wrong1(e.ids[i], e.get[i].ok, e.get[i].d)
+                               \/ Encoded(e.ids[i]) /\ ~SizeOk(e.ids[i], e.size[i].ok, e.size[i].r)
 KF1(e, subj) ==
     /\ G1(e, subj)
-    /\ \/ e.op = "get"   /\ Get1(subj, e.id, e.ok, e.d) /\ Same
-       \/ e.op = "size"  /\ Size1(subj, e.id, e.ok, e.r) /\ Same
-       \/ e.op = "probe" /\ LET G(id, ok, d) == Get1(subj, id, ok, d)
-                                S(id, ok, r) == Size1(subj, id, ok, r)
-                            IN ProbeWith(e.ids, e.get, e.contains, e.size, e.len, G, S, LenOk)
+    /\ \/ e.op = "get"   /\ Get1(e.id, e.ok, e.d) /\ Same
+       \/ e.op = "size"  /\ Size1(e.id, e.ok, e.r) /\ Same
+       \/ e.op = "probe" /\ ProbeWith(e.ids, e.get, e.contains, e.size, e.len, Get1, Size1, LenOk)
 
 (* ---------------------------------------------------------------------------------------- *)
 (* C03-KF2: NestLoudsTrieBlobStore::len() returns the statistics counter                     *)
@@ -116,22 +112,25 @@ KF5(e, subj) == /\ G5(e, subj)
                 /\ UNCHANGED <<issued, keyof>>
 
 (* ---------------------------------------------------------------------------------------- *)
-(* C03-KF6: with TrieBlobStoreConfig::memory_optimized() the key index is a ZiporaTrie of the *)
-(* LOUDS strategy, whose keys_with_prefix() finds nothing: get_by_prefix returns no entry     *)
-(* although keys with that prefix hold live records (get_by_key of the same keys works).       *)
-G6(e, subj) == /\ subj.fam = "triekey" /\ subj.variant = "memory"
-               /\ e.op = "get_prefix" /\ e.ok /\ Len(e.r) = 0 /\ PrefixSet(e.p) /= {}
-KF6(e, subj) == G6(e, subj) /\ Same
-
-(* ---------------------------------------------------------------------------------------- *)
 (* C03-KF7: with the LOUDS key index (memory_optimized) ZiporaTrie::remove reports success    *)
 (* without removing the key, and the store keeps the node -> blob mapping and the blob bytes:  *)
-(* after remove(id) the record is absent by id, but get_by_key of its key still returns it.    *)
-G7(e, subj) == /\ subj.fam = "triekey" /\ subj.variant = "memory"
-               /\ e.op = "get_key" /\ e.ok
-               /\ e.k \in DOMAIN bykey /\ ~IsLive(bykey[e.k])
-               /\ ~GetByKeyOk(e.k, e.ok, e.d)
-KF7(e, subj) == G7(e, subj) /\ Same
+(* after remove(id) the record is absent by id, but get_by_key of its key still returns it and  *)
+(* get_by_prefix still lists it.  Entries of keys whose latest record is live are still judged. *)
+Stale(k) == k \in DOMAIN bykey /\ ~IsLive(bykey[k])
+G7(e, subj) ==
+    /\ subj.fam = "triekey" /\ subj.variant = "memory"
+    /\ \/ e.op = "get_key" /\ e.ok /\ Stale(e.k) /\ ~GetByKeyOk(e.k, e.ok, e.d)
+       \/ e.op = "get_prefix" /\ e.ok /\ \E i \in 1..Len(e.r) : Stale(e.r[i].k) /\ IsPrefix(e.p, e.r[i].k)
+KF7(e, subj) ==
+    /\ G7(e, subj)
+    /\ \/ e.op = "get_key" /\ Same
+       \/ /\ e.op = "get_prefix"
+          /\ LET keys == { e.r[i].k : i \in 1..Len(e.r) } IN
+                /\ Len(e.r) = Cardinality(keys)
+                /\ PrefixSet(e.p) \subseteq keys
+                /\ \A k \in keys \ PrefixSet(e.p) : Stale(k) /\ IsPrefix(e.p, k)
+                /\ \A i \in 1..Len(e.r) : e.r[i].k \in PrefixSet(e.p) => e.r[i].d = live[bykey[e.r[i].k]]
+          /\ Same
 
 (* ---------------------------------------------------------------------------------------- *)
 (* C03-KF8: DictZipBlobStore with entropy_algorithm = Fse: for large records the FSE stage     *)
@@ -156,7 +155,6 @@ DevApplies(id, e, subj) ==
     \/ id = "C03-KF3" /\ G3(e, subj)
     \/ id = "C03-KF4" /\ G4(e, subj)
     \/ id = "C03-KF5" /\ G5(e, subj)
-    \/ id = "C03-KF6" /\ G6(e, subj)
     \/ id = "C03-KF7" /\ G7(e, subj)
     \/ id = "C03-KF8" /\ G8(e, subj)
 KnownDeviation(id, e, subj) ==
@@ -165,7 +163,6 @@ KnownDeviation(id, e, subj) ==
     \/ id = "C03-KF3" /\ KF3(e, subj)
     \/ id = "C03-KF4" /\ KF4(e, subj)
     \/ id = "C03-KF5" /\ KF5(e, subj)
-    \/ id = "C03-KF6" /\ KF6(e, subj)
     \/ id = "C03-KF7" /\ KF7(e, subj)
     \/ id = "C03-KF8" /\ KF8(e, subj)
 =============================================================================
